@@ -721,6 +721,15 @@ class IterV(V):
 def install_iters(eng):
     M = eng.models
     M["core::slice::<impl [T]>::iter"] = m_slice_iter
+    M["core::slice::<impl [T]>::iter_mut"] = m_slice_iter
+    M["core::iter::Iterator::fold"] = m_iter_fold
+    M["core::array::iter::<impl core::iter::IntoIterator for [T; N]>::into_iter"] = m_array_into_iter
+    M["<core::array::IntoIter<T, N> as core::iter::Iterator>::fold"] = m_iter_fold
+    M["<core::array::IntoIter<T, N> as core::iter::Iterator>::next"] = m_iter_next
+    M["<core::iter::Zip<A, B> as core::iter::Iterator>::fold"] = m_iter_fold
+    M["<core::slice::Iter<'a, T> as core::iter::Iterator>::fold"] = m_iter_fold
+    M["<core::slice::IterMut<'a, T> as core::iter::Iterator>::fold"] = m_iter_fold
+    M["<core::ops::Range<A> as core::iter::Iterator>::fold"] = m_iter_fold
     M["core::slice::iter::<impl core::iter::IntoIterator for &'a [T]>::into_iter"] = m_slice_iter
     M["core::iter::Iterator::zip"] = m_iter_zip
     M["core::iter::Iterator::enumerate"] = m_iter_enumerate
@@ -748,10 +757,63 @@ def m_slice_iter(eng, st, c, args, dest_tid, t):
     return [(st, IterV("slice", a=args[0], b=len(a.els), n=0))]
 
 
-def m_iter_zip(eng, st, c, args, dest_tid, t):
-    if isinstance(args[0], IterV) and isinstance(args[1], IterV):
-        return [(st, IterV("zip", a=args[0], b=args[1]))]
+def _as_iter(eng, st, v):
+    """an IntoIterator argument as an iterator value: an iterator already, or an array taken by value"""
+    if isinstance(v, IterV):
+        return v
+    if isinstance(v, Arr):
+        return IterV("vals", a=list(v.els), n=0)
+    return None
+
+
+def m_array_into_iter(eng, st, c, args, dest_tid, t):
+    """[T; N]::into_iter(): the elements by value, in order"""
+    v = args[0]
+    if isinstance(v, Arr):
+        return [(st, IterV("vals", a=list(v.els), n=0))]
     return NotImplemented
+
+
+def m_iter_zip(eng, st, c, args, dest_tid, t):
+    a, b = _as_iter(eng, st, args[0]), _as_iter(eng, st, args[1])
+    if a is not None and b is not None:
+        return [(st, IterV("zip", a=a, b=b))]
+    return NotImplemented
+
+
+def m_iter_fold(eng, st, c, args, dest_tid, t):
+    """iter.fold(init, f) with a closure that has a MIR body, over an iterator _pull understands: acc = f(acc, item) in order"""
+    it, acc0, clo = args[0], args[1], args[2]
+    if isinstance(it, Ref) and it.key is not None:
+        it = eng.deref(st, it)
+    fn = eng.closure_fn(clo)
+    if fn is None or not isinstance(it, (IterV, Struct)):
+        return NotImplemented
+    eng.ncell += 1
+    ckey = ("cell", eng.ncell, "closure-env")
+    st.store[ckey] = clo
+    out = []
+    work = [(st, it, acc0, 0)]
+    while work:
+        s0, it0, acc, k = work.pop()
+        if k > 4096:
+            s0.end = "limit"
+            eng.event(s0, "limit", "fold over an unbounded iterator")
+            out.append((s0, None))
+            continue
+        pl = _pull(eng, s0, it0, None)
+        if pl is None:
+            return NotImplemented
+        out.extend((s2, None) for s2 in pl[1])
+        for s1, nit, item in pl[0]:
+            if item is None:
+                out.append((s1, acc))
+                continue
+            returned, ended = eng.subcall(s1, fn, [Ref(key=ckey), acc, item])
+            out.extend((s2, None) for s2 in ended)
+            for s2, v in returned:
+                work.append((s2, nit, v, k + 1))
+    return out
 
 
 def m_iter_enumerate(eng, st, c, args, dest_tid, t):
